@@ -81,6 +81,8 @@ type C17Scenario struct {
 	// is registered and then removed with ClearUpcasts (1) or ClearUpcastsForType (2). Neither may cost the bus
 	// its error handler or change what the later registrations do.
 	ClearFirst int `json:"clear_first,omitempty"`
+	// HandlerLast: the WithUpcastErrorHandler option comes after the WithUpcast options (and the store) instead of before
+	HandlerLast bool `json:"handler_last,omitempty"`
 	Subscribe  bool      `json:"subscribe,omitempty"` // also check SubscribeWithReplay[UC]
 	Store      StoreCfg  `json:"store"`
 	// ClearDuring: another task calls ClearUpcasts while the replay runs. Each event must then be seen
@@ -145,6 +147,7 @@ func genC17(rt *rapid.T) core.Scenario {
 	if !sc.ByOption {
 		sc.ClearFirst = rapid.SampledFrom([]int{0, 0, 1, 2}).Draw(rt, "clearFirst")
 	}
+	sc.HandlerLast = sc.ErrHandler && !sc.BySetter && rapid.Bool().Draw(rt, "handlerLast")
 	sc.Subscribe = sc.Typed == 2 && rapid.Bool().Draw(rt, "subscribe")
 	sc.Store = StoreCfg{Kind: rapid.SampledFrom([]string{"mem", "mem", "mem", "sqlite"}).Draw(rt, "store")}
 	if rapid.IntRange(0, 3).Draw(rt, "clearDuring") == 3 {
@@ -220,7 +223,7 @@ func (sc *C17Scenario) Execute(t *testing.T) *core.Outcome {
 		errHandler := func(typ string, data json.RawMessage, err error) {
 			errCalls = append(errCalls, typ)
 		}
-		if sc.ErrHandler && !sc.BySetter {
+		if sc.ErrHandler && !sc.BySetter && !sc.HandlerLast {
 			opts = append(opts, eventbus.WithUpcastErrorHandler(errHandler))
 		}
 		tick := func() error { // called at the start of every upcaster application
@@ -249,6 +252,9 @@ func (sc *C17Scenario) Execute(t *testing.T) *core.Outcome {
 		}
 		if sc.StoreLast {
 			opts = append(opts, eventbus.WithStore(store))
+		}
+		if sc.ErrHandler && !sc.BySetter && sc.HandlerLast {
+			opts = append(opts, eventbus.WithUpcastErrorHandler(errHandler))
 		}
 		bus := eventbus.New(opts...)
 		if sc.ErrHandler && sc.BySetter {
